@@ -501,3 +501,124 @@ Proof.
       rewrite <- Habs in *.
       apply IH; [apply wf_swamp_intro; [reflexivity|apply aall_aput; [exact Hall|reflexivity]] | exact D].
 Qed.
+
+(* ---- Increment* ---- *)
+Lemma opt_meta_props r m :
+  r_c (opt_meta r m) = r_c r /\
+  r_meta (opt_meta r m) = match m with Some m => merge_meta (r_meta r) (imeta_to_meta m) | None => r_meta r end.
+Proof.
+  destruct m as [m|]; cbn [opt_meta]; [|split; reflexivity].
+  destruct (apply_meta_props r (imeta_to_meta m)) as (A & B & _). split; assumption.
+Qed.
+Lemma ty_eqb_refl t : ty_eqb t t = true.
+Proof. apply ty_eqb_eq; reflexivity. Qed.
+
+(* what is stored by save for a record whose content is one typed scalar *)
+Definition stored (r : rec) : rec := if r_dirty r then clear_flags cfg_now r else r.
+Lemma stored_props r : abs_rec (stored r) = abs_rec r /\ wf_rec (stored r) = single (r_c r).
+Proof. unfold stored, wf_rec. destruct r as [c m d]; destruct d; cbn; split; reflexivity. Qed.
+Lemma save_existing x k r old :
+  aget k (recs x) = Some old ->
+  fst (save cfg_now x k r) = {| recs := aput k (stored r) (recs x); infl := infl x |}.
+Proof. intros E. unfold save, ahas, stored. rewrite E. destruct (r_dirty r); reflexivity. Qed.
+Lemma save_absent x k r :
+  aget k (recs x) = None ->
+  fst (save cfg_now x k r) = {| recs := aput k (clear_flags cfg_now r) (recs x); infl := adel k (infl x) |}.
+Proof. intros E. unfold save, ahas. rewrite E. reflexivity. Qed.
+
+(* the record an increment saves: r1 has content {t : cur}; afterwards {t : nv} *)
+Lemma set_sc_scalar m1 d1 t cur nv :
+  let r2 := set_sc {| r_c := Some {| c_void := false; c_sc := Some (t, cur); c_sl := None |}; r_meta := m1; r_dirty := d1 |} t nv in
+  sval_of (r_c r2) = SSc t nv /\ r_meta r2 = m1 /\ single (r_c r2) = true.
+Proof.
+  unfold set_sc, sc_same; cbn. rewrite ty_eqb_refl; cbn. destruct (nv =? cur) eqn:E; cbn.
+  - apply Z.eqb_eq in E; subst. repeat split; reflexivity.
+  - repeat split; reflexivity.
+Qed.
+
+Lemma wf_rec_cases r : wf_rec r = true ->
+  exists m,
+    r = {| r_c := Some {| c_void := true; c_sc := None; c_sl := None |}; r_meta := m; r_dirty := false |} \/
+    (exists t z, r = {| r_c := Some {| c_void := false; c_sc := Some (t, z); c_sl := None |}; r_meta := m; r_dirty := false |}) \/
+    (exists l, r = {| r_c := Some {| c_void := false; c_sc := None; c_sl := Some l |}; r_meta := m; r_dirty := false |}).
+Proof.
+  unfold wf_rec. intros H. apply andb_true_iff in H as [Hd Hs]. apply negb_true_iff in Hd.
+  destruct r as [[[cv cs cl]|] m d]; cbn in *; [|discriminate]. subst d. exists m.
+  destruct cv, cs as [[t z]|], cl; try discriminate; eauto.
+Qed.
+
+Lemma inc_sim x t k by_ cond ne e :
+  wf_swamp x = true ->
+  disc_inc (abs_swamp x) t k cond e = 0 ->
+  let '(x', r) := do_inc_swamp cfg_now x t k by_ cond ne e in
+  s_inc (abs_swamp x) t k by_ cond ne e = (abs_swamp x', r) /\ wf_swamp x' = true.
+Proof.
+  intros Hwf D. destruct (wf_swamp_inv x Hwf) as [Hinfl Hall].
+  destruct x as [rs inf]; cbn [infl recs] in *; subst inf.
+  unfold do_inc_swamp, s_inc, disc_inc in *. rewrite aget_abs_swamp in *. cbn [recs] in *.
+  unfold obj_of; cbn [recs infl].
+  destruct (aget k rs) as [old|] eqn:E; cbn [option_map] in *.
+  - destruct (wf_rec_cases old (aall_aget _ _ _ _ Hall E)) as [m [Hc|[(t' & z & Hc)|(l & Hc)]]]; subst old;
+      cbn [abs_rec s_val s_meta r_c r_meta sval_of c_void c_sc c_sl ctype_of] in *.
+    + (* a Void record *)
+      change (set_sc {| r_c := Some {| c_void := true; c_sc := None; c_sl := None |}; r_meta := m; r_dirty := false |} t 0)
+        with {| r_c := Some {| c_void := false; c_sc := Some (t, 0); c_sl := None |}; r_meta := m; r_dirty := true |}.
+      destruct (opt_meta_props {| r_c := Some {| c_void := false; c_sc := Some (t, 0); c_sl := None |}; r_meta := m; r_dirty := true |} ne) as [A B].
+      destruct (opt_meta _ ne) as [c1 m1 d1]; cbn [r_c r_meta] in A, B; subst c1.
+      cbn [sc_val r_c c_sc].
+      destruct (match cond with Some (op, v) => cond_holds op 0 (wrap t v) | None => true end) eqn:Ec.
+      * destruct (set_sc_scalar m1 d1 t 0 (wrap t (0 + wrap t by_))) as (S1 & S2 & S3).
+        pose proof (save_existing {| recs := rs; infl := [] |} k
+                     (set_sc {| r_c := Some {| c_void := false; c_sc := Some (t, 0); c_sl := None |}; r_meta := m1; r_dirty := d1 |} t (wrap t (0 + wrap t by_))) _ E) as Hsv.
+        destruct (save cfg_now _ k _) as [x' st]. cbn [fst] in Hsv. subst x'.
+        destruct (stored_props (set_sc {| r_c := Some {| c_void := false; c_sc := Some (t, 0); c_sl := None |}; r_meta := m1; r_dirty := d1 |} t (wrap t (0 + wrap t by_)))) as [P1 P2].
+        rewrite S2. split.
+        -- unfold abs_swamp; cbn [recs]. rewrite aput_amap, P1. unfold abs_rec. rewrite S1, S2, B.
+           destruct ne; reflexivity.
+        -- apply wf_swamp_intro; [reflexivity|]. apply aall_aput; [exact Hall|]. rewrite P2; exact S3.
+      * destruct cond as [[op v]|]; [|discriminate]. rewrite Ec in D. discriminate.
+    + (* a typed scalar *)
+      destruct (ty_eqb t t') eqn:Et.
+      * apply ty_eqb_eq in Et; subst t'.
+        destruct (opt_meta_props {| r_c := Some {| c_void := false; c_sc := Some (t, z); c_sl := None |}; r_meta := m; r_dirty := false |} e) as [A B].
+        destruct (match cond with Some (op, v) => cond_holds op z (wrap t v) | None => true end) eqn:Ec.
+        -- destruct (opt_meta _ e) as [c1 m1 d1]; cbn [r_c r_meta] in A, B; subst c1. cbn [sc_val r_c c_sc].
+           rewrite Ec.
+           destruct (set_sc_scalar m1 d1 t z (wrap t (z + wrap t by_))) as (S1 & S2 & S3).
+           pose proof (save_existing {| recs := rs; infl := [] |} k
+                     (set_sc {| r_c := Some {| c_void := false; c_sc := Some (t, z); c_sl := None |}; r_meta := m1; r_dirty := d1 |} t (wrap t (z + wrap t by_))) _ E) as Hsv.
+           destruct (save cfg_now _ k _) as [x' st]. cbn [fst] in Hsv. subst x'.
+           destruct (stored_props (set_sc {| r_c := Some {| c_void := false; c_sc := Some (t, z); c_sl := None |}; r_meta := m1; r_dirty := d1 |} t (wrap t (z + wrap t by_)))) as [P1 P2].
+           rewrite S2. split.
+           ++ unfold abs_swamp; cbn [recs]. rewrite aput_amap, P1. unfold abs_rec. rewrite S1, S2, B.
+              destruct e; reflexivity.
+           ++ apply wf_swamp_intro; [reflexivity|]. apply aall_aput; [exact Hall|]. rewrite P2; exact S3.
+        -- (* condition not met: only without SetIfExist metadata *)
+           destruct cond as [[op v]|]; [|discriminate]. rewrite Ec in D.
+           destruct e; [discriminate|]. cbn [opt_meta sc_val r_c c_sc]. rewrite Ec.
+           unfold keep_unsaved, ahas; cbn [recs infl]. rewrite E. rewrite (aput_same k _ rs E).
+           split; [reflexivity|exact Hwf].
+      * unfold keep_unsaved, ahas; cbn [recs infl]. rewrite E. rewrite (aput_same k _ rs E).
+        split; [reflexivity|exact Hwf].
+    + (* a slice *)
+      unfold keep_unsaved, ahas; cbn [recs infl]. rewrite E. rewrite (aput_same k _ rs E).
+      split; [reflexivity|exact Hwf].
+  - (* absent key *)
+    cbn [aget fresh_rec r_c ctype_of].
+    change (set_sc {| r_c := None; r_meta := meta0; r_dirty := false |} t 0)
+      with {| r_c := Some {| c_void := false; c_sc := Some (t, 0); c_sl := None |}; r_meta := meta0; r_dirty := true |}.
+    destruct (opt_meta_props {| r_c := Some {| c_void := false; c_sc := Some (t, 0); c_sl := None |}; r_meta := meta0; r_dirty := true |} ne) as [A B].
+    destruct (opt_meta _ ne) as [c1 m1 d1]; cbn [r_c r_meta] in A, B; subst c1.
+    cbn [sc_val r_c c_sc].
+    destruct (match cond with Some (op, v) => cond_holds op 0 (wrap t v) | None => true end) eqn:Ec.
+    + destruct (set_sc_scalar m1 d1 t 0 (wrap t (0 + wrap t by_))) as (S1 & S2 & S3).
+      pose proof (save_absent {| recs := rs; infl := [] |} k
+                   (set_sc {| r_c := Some {| c_void := false; c_sc := Some (t, 0); c_sl := None |}; r_meta := m1; r_dirty := d1 |} t (wrap t (0 + wrap t by_))) E) as Hsv.
+      destruct (save cfg_now _ k _) as [x' st]. cbn [fst] in Hsv. subst x'.
+      rewrite S2. split.
+      * unfold abs_swamp; cbn [recs]. rewrite aput_amap. unfold abs_rec, clear_flags; cbn [cfg_now c_sticky r_c r_meta].
+        rewrite S1, S2, B. destruct ne; reflexivity.
+      * apply wf_swamp_intro; [reflexivity|]. apply aall_aput; [exact Hall|].
+        unfold wf_rec, clear_flags; cbn [cfg_now c_sticky r_c r_dirty negb andb]. exact S3.
+    + destruct cond as [[op v]|]; [|discriminate]. rewrite Ec in D. discriminate.
+Qed.
